@@ -15,6 +15,7 @@ type progGen struct {
 	r       *core.PRNG
 	ints    []string // global int variables
 	vars    []string // those declared with var (may be declared again)
+	consts  []string
 	strs    []string
 	slices  []string // []int
 	maps    []string // map[string]int
@@ -197,7 +198,40 @@ func (g *progGen) scopedStmt() string {
 // stmt returns one top-level statement (one line).
 func (g *progGen) stmt() string {
 	for {
-		switch g.r.Intn(27) {
+		switch g.r.Intn(32) {
+		case 27:
+			// declaring a constant again, with another value (REPL semantics: the later one holds)
+			if len(g.consts) == 0 {
+				continue
+			}
+			return fmt.Sprintf("const %s = %d", core.Pick(g.r, g.consts), 50+g.r.Intn(50))
+		case 28:
+			// := on a name that is already a global gives it the new value
+			if len(g.ints) == 0 {
+				continue
+			}
+			return fmt.Sprintf("%s := %s", core.Pick(g.r, g.ints), g.intExpr(1))
+		case 29:
+			// an if whose branches are empty
+			if g.r.Bool() {
+				return "if " + g.boolExpr() + " { }"
+			}
+			return "if " + g.boolExpr() + " { } else { }"
+		case 30:
+			// defining a function again between two uses
+			if len(g.funcs) == 0 {
+				continue
+			}
+			return fmt.Sprintf("func %s(p int, q int) int { return (p + q*%d) %% 1000 }", core.Pick(g.r, g.funcs), 2+g.r.Intn(7))
+		case 31:
+			// a constant computed from a variable that an earlier statement set
+			if len(g.ints) == 0 {
+				continue
+			}
+			v := g.id("c")
+			g.consts = append(g.consts, v)
+			g.ints = append(g.ints, v)
+			return fmt.Sprintf("const %s = (%s + %d) %% 1000", v, core.Pick(g.r, g.ints[:len(g.ints)-1]), g.r.Intn(9))
 		case 22, 23, 24:
 			if !g.obs {
 				continue
@@ -262,10 +296,8 @@ func (g *progGen) stmt() string {
 		case 7:
 			v := g.id("c")
 			s := fmt.Sprintf("const %s = %d", v, g.r.Intn(50))
-			g.ints = append(g.ints, v)
-			// constants are read-only: keep them out of assignment targets by
-			// removing them again from the pool after use as an operand source
-			g.ints = g.ints[:len(g.ints)-1]
+			g.consts = append(g.consts, v)
+			g.ints = append(g.ints, v) // goatlang constants are plain globals: usable as operands and targets
 			return s
 		case 8, 9:
 			if len(g.ints) == 0 {
